@@ -23,7 +23,7 @@ def ties(ctx):
 def search(ctx, reason):
     t = run_conc(ctx, 'c18', 'shuttle', 20000, seed_offset=55)
     for f in t.failures:
-        if f.kind == 'oracle':
+        if f.kind == 'oracle' and f.key not in listed_keys():
             return f
     return None
 
